@@ -10,7 +10,8 @@ from harness.core import llit, slit
 
 IMPORTS = "From Coq Require Import List String.\nImport ListNotations.\nFrom Elex Require Import Model.Persist.\nOpen Scope string_scope.\n"
 
-RULE = ("the finite configuration space is enumerated completely every run: 2^4 subsets of save_output {results, data, config, conformalization} x "
+RULE = ("(every uploaded prediction table is also parsed back and compared with the returned table; a few configurations fetch baseline / configuration from the fake remote store) "
+        "the finite configuration space is enumerated completely every run: 2^4 subsets of save_output {results, data, config, conformalization} x "
         "{local, non-local environment} x {nonparametric, gaussian, bootstrap} x {minimum-units gate passes, fails} = 192 get_estimates runs (plus 16 runs whose baseline is fetched from the fake remote storage instead of being passed in memory, plus sequences of "
         "two calls in one process with model_parameters left at its default: what the first call saved must not be saved by the second) against a "
         "fake boto3 client (put_object recorded in order) in an empty working directory (local files listed afterwards); the observed event sequence is "
@@ -21,12 +22,16 @@ ROOT = "verif-root-dev"
 
 
 class FakeS3:
-    def __init__(self, log, objects=None):
+    def __init__(self, log, objects=None, bodies=None):
         self.log = log
         self.objects = objects or {}
+        self.bodies = bodies
 
     def put_object(self, **kw):
         self.log.append(kw.get("Key"))
+        if self.bodies is not None:
+            b = kw.get("Body")
+            self.bodies[kw.get("Key")] = b.decode("utf-8") if isinstance(b, (bytes, bytearray)) else b
         return True
 
     def get_object(self, **kw):
@@ -44,6 +49,7 @@ def worker(job):
     idx, save, local, pi, gate_ok = job[:5]
     remote = len(job) > 5 and job[5] is True
     empty_feed = len(job) > 5 and job[5] == "empty"
+    remote_config = len(job) > 5 and job[5] == "config"
     client = run_impl._imp()
     import boto3
 
@@ -51,8 +57,9 @@ def worker(job):
 
     log = []
     objects = {}
+    bodies = {}
     orig = boto3.client
-    s3mod.boto3.client = lambda *a, **k: FakeS3(log, objects)
+    s3mod.boto3.client = lambda *a, **k: FakeS3(log, objects, bodies)
     old_env = client.APP_ENV
     client.APP_ENV = "local" if local else "prod"
     wd = os.path.join(core.BUILD, "c18", f"w{idx}")
@@ -77,7 +84,42 @@ def worker(job):
         if remote:
             # the baseline is not handed over in memory: the client fetches it from (fake) remote storage
             objects["data_county.csv"] = run_impl.frames(case)[0].to_csv(index=False)
-        r = run_impl.run_case(case, preprocessed_none=bool(remote), want_client=True)
+        if remote_config:
+            # the configuration is not handed over either: the client fetches it from (fake) remote storage
+            import json as _json
+            objects[f"config/{gen.ELECTION_ID}.json"] = _json.dumps(gen.make_config(case))
+        r = run_impl.run_case(case, preprocessed_none=bool(remote), want_client=True, config_none=bool(remote_config))
+        # what was uploaded under a prediction-table key is the table that was returned
+        content = []
+        if r["ok"]:
+            import io
+
+            import pandas as pd
+            for key, body in bodies.items():
+                parts = str(key).split("/")
+                if "predictions" not in parts or not isinstance(body, str) or parts[-2] not in r["tables"]:
+                    continue
+                ret = r["tables"][parts[-2]]
+                try:
+                    up = pd.read_csv(io.StringIO(body))
+                except Exception as e:  # noqa: BLE001
+                    content.append(f"{parts[-2]}: uploaded body is not a CSV table ({type(e).__name__})")
+                    continue
+                if list(up.columns) != list(ret.columns) or len(up) != len(ret):
+                    content.append(f"{parts[-2]}: uploaded table has columns {list(up.columns)[:6]}.. and {len(up)} rows, the returned one {list(ret.columns)[:6]}.. and {len(ret)} rows")
+                    continue
+                for c in ret.columns:
+                    a_, b_ = ret[c].tolist(), up[c].tolist()
+                    for x, y in zip(a_, b_):
+                        if isinstance(x, (int, float)) and not isinstance(x, bool):
+                            okv = (x != x and y != y) or (isinstance(y, (int, float)) and abs(float(x) - float(y)) <= 1e-9 * max(1.0, abs(float(x))))
+                        else:
+                            okv = str(x) == str(y)
+                        if not okv:
+                            content.append(f"{parts[-2]}.{c}: returned {x!r}, uploaded {y!r}")
+                            break
+                    if content:
+                        break
         # the national summary of a bootstrap run is one more table: written (only) where the other tables are written
         sum_puts = None
         if r["ok"] and pi == "bootstrap":
@@ -98,7 +140,8 @@ def worker(job):
         s3mod.boto3.client = orig
         shutil.rmtree(wd, ignore_errors=True)
     tables = list(r["tables"].keys()) if r["ok"] else []
-    return {"job": list(job), "ok": r["ok"], "exc": r["exc"], "puts": log, "files": sorted(files), "tables": tables, "sum_puts": sum_puts}
+    return {"job": list(job), "ok": r["ok"], "exc": r["exc"], "puts": log, "files": sorted(files), "tables": tables, "sum_puts": sum_puts, "content": content if r["ok"] else [],
+            "remote_config": bool(remote_config)}
 
 
 def history_job(job):
@@ -201,10 +244,19 @@ def run(chk):
         for save in (("results",), ("results", "data")):
             jobs.append((idx, save, False, pi, False, "empty"))
             idx += 1
+    # ... and with the configuration fetched from remote storage (no raw_config handed over, as the command line tool does)
+    for pi in ("nonparametric", "bootstrap"):
+        for save in ((), ("results",), ("config",)):
+            for local in (True, False):
+                jobs.append((idx, save, local, pi, True, "config"))
+                idx += 1
     outs = core.pmap(worker, jobs)
     exprs = []
     for o in outs:
         idx, save, local, pi, gate_ok = o["job"][:5]
+        for cdiff in o.get("content", [])[:1]:
+            chk.violation(f"configuration {o['job'][1:]}: the prediction table uploaded is not the table returned -- {cdiff}", {"kind": "c18", "job": o["job"]},
+                          {"kind": "content-differs"})
         if o.get("sum_puts") is not None:
             want_sum = [] if (local or "results" not in save) else [f"{ROOT}/{gen.ELECTION_ID}/predictions/S/county/nat_sum_data/current.csv"]
             if o["sum_puts"] != want_sum:
